@@ -103,21 +103,40 @@ def check_cap(ctx):
     q = "SequOOL.pull"
     ctx.fn(q)
     body = strip_doc(pull.body)
+    from ..routes import canon_cond
     top = [s for s in body if isinstance(s, ast.If)]
-    ok = len(top) == 1 and norm_src(top[0].test) in ("self.curr_depth <= self.h_max", "self.h_max >= self.curr_depth") and body[-1] is top[0]
+    capped = None
+    if len(top) == 1:
+        ctext, pol = canon_cond(norm_src(top[0].test), True)
+        if ctext == "self.h_max < self.curr_depth":
+            # pol True: the test says 'schedule exhausted'; pol False: the test says 'within the cap'
+            k = body.index(top[0])
+            rest = body[k + 1:]
+            if not pol:
+                capped, exhausted = top[0].body, top[0].orelse + rest
+                ok_shape = not rest or bool(top[0].body and isinstance(top[0].body[-1], ast.Return))
+            else:
+                exhausted = top[0].body
+                ends = bool(exhausted) and isinstance(exhausted[-1], ast.Return)
+                capped = top[0].orelse + (rest if ends or not top[0].orelse else [])
+                ok_shape = (not rest) or ends
+            if not ok_shape:
+                capped = None
+    ok = capped is not None
     ctx.ob("R12-CAP", ok, c.file, q, "all opening code runs under curr_depth <= h_max", norm_src(top[0].test) if top else "no top-level test", pull.lineno)
     if not ok:
         return None
-    I = top[0]
-    pre = [norm_src(s) for s in body[:-1]]
+    pre = [norm_src(s) for s in body[:body.index(top[0])]]
     okp = set(pre) <= {"node_list = self.partition.get_node_list()", "self.iteration = %s" % pull.args.args[1].arg}
     ctx.ob("R12-CAP", okp, c.file, q, "nothing happens before the cap test", "%s" % pre, pull.lineno, nontrivial=False)
     # opening effects only inside the capped branch
     for x in ast.walk(pull):
         if isinstance(x, ast.Call) and (method_name(x) in ("make_children", "open") or norm_src(x.func) == "self.chosen.append"):
-            inside = any(x is y for s in I.body for y in ast.walk(s))
+            inside = any(x is y for s in capped for y in ast.walk(s))
             ctx.ob("R12-CAP", inside, c.file, q, norm_src(x)[:70], "inside the capped branch" if inside else "executed even after the schedule is exhausted",
                    x.lineno, nontrivial=False)
+    I = ast.If(test=top[0].test, body=capped, orelse=[])
+    ast.copy_location(I, top[0])
     return I
 
 
@@ -180,6 +199,11 @@ def check_handout_paths(ctx, winner):
             continue
         n_ret += 1
         cd = dict(p.conds)
+        from ..routes import canon_cond
+        ccd = {}
+        for c0, pol0 in p.conds:
+            k0, v0 = canon_cond(c0, pol0)
+            ccd.setdefault(k0, v0)
         r = rets[0]
         label = "path [%s]" % " and ".join("%s%s" % ("" if pol else "not ", c0) for c0, pol in p.conds[-4:])
         if not r[1].endswith(".get_cpoint()"):
@@ -188,7 +212,8 @@ def check_handout_paths(ctx, winner):
         cell = r[1][: -len(".get_cpoint()")]
         calls = [e for e in p.events if e[0] in ("call", "loop-call")]
         writes = [w for w in p.writes if not w[0].startswith("self.iteration")]
-        capped = cd.get("self.curr_depth <= self.h_max", cd.get("self.h_max >= self.curr_depth"))
+        capped = ccd.get("self.h_max < self.curr_depth")
+        capped = None if capped is None else (not capped)
         if capped is False:
             ok = cell in ROOT and [w[0] for w in writes] == ["self.curr_node"] and writes[0][2] in ROOT and not calls
             ctx.ob("R12-CAP", ok, c.file, q, label, "exhausted schedule: hands out the root's centre, stores it as the cell to credit, nothing else"
